@@ -51,3 +51,10 @@ package barriers
 //@   ensures[C12] forall i int :: 0 <= i && i < len(errbase.foldSD(self.maskedErr, nil)) ==> result[i] == errbase.foldSD(self.maskedErr, nil)[i]
 //@   loop 1: invariant[C03] safeSeq(details)
 //@           invariant[C12] errbase.foldSD(err, details) == errbase.foldSD(self.maskedErr, nil)
+
+// C09: a barrier presents its own message and never continues with the masked error
+//@ method (*barrierErr).SafeFormatError
+//@   props C09
+//@   requires p != nil
+//@   ensures result == nil
+//@   ensures len($pargs) > len(old($pargs)) && $pargs[len(old($pargs))] == ifaceOf(self.smsg)
